@@ -183,6 +183,136 @@ def run_mc(ctx, cfg, total, shards=16):
                       {"cfg": cfg, "p_value": worst_p, "tree": worst[0], "observed": worst[1], "expected": worst[2]})
 
 
+# ----------------------------------------------------------------------------- extended-target consistency (larger trees)
+class _Stop(Exception):
+    def __init__(self, sampler):
+        self.sampler = sampler
+
+
+def random_placement_forest(rng, n, p_out):
+    """Random forest built by placements along the identity order (every forest compatible with it can arise)."""
+    blocks, parent, outs = [], [], []
+    for t in range(n):
+        tops = [i for i, p in enumerate(parent) if p is None]
+        u = rng.random()
+        if u < p_out:
+            outs.append(t)
+        elif u < p_out + 0.3 and tops:
+            blocks[tops[int(rng.integers(0, len(tops)))]].append(t)
+        else:
+            k = int(rng.integers(0, len(tops) + 1))
+            ch = list(rng.permutation(tops)[:k])
+            blocks.append([t])
+            parent.append(None)
+            for c in ch:
+                parent[c] = len(blocks) - 1
+    return gen.AForest(blocks, parent, outs)
+
+
+def aux_task(task):
+    """Necessary condition for invariance that scales to larger trees: the data-order density that enters the particle
+    weights must be proportional, over trees, to the law the order is actually drawn from.  For every tree T of the
+    instance the real sampler is replayed over every outcome of its order draws up to the construction of the
+    conditional SMC sampler; r(T, sigma) = log_pdf used for the retained particle - log P_observed(sigma | T) must not
+    depend on T for a fixed order sigma."""
+    from vlib.harness import Partial, describe_exception
+    from vlib.choice_rng import ChoiceModelError, explore
+    from phyclone.smc.samplers.conditional import ConditionalSMCSampler
+    from phyclone.utils.dev import clear_proposal_dist_caches
+
+    part = Partial()
+    cfg = task["cfg"]
+    data = kernelx.config_data(cfg)
+    td = kernelx.make_tree_dist(cfg)
+    rng0 = np.random.default_rng([cfg["data_seed"], cfg["n"], 4242])
+    forests = [gen.AForest.from_desc(d) for d in task.get("crafted", [])]
+    seen = set(f.key() for f in forests)
+    while len(forests) < task["trees"]:
+        f = random_placement_forest(rng0, cfg["n"], 0.15 if cfg.get("outlier_prior", 0) > 0 else 0.0)
+        if f.key() not in seen:
+            seen.add(f.key())
+            forests.append(f)
+    orig_sample = ConditionalSMCSampler.sample
+
+    def stop(self):
+        raise _Stop(self)
+
+    table = {}
+    try:
+        ConditionalSMCSampler.sample = stop
+        for f in forests:
+            def once(rng):
+                clear_proposal_dist_caches()
+                tree, _ = gen.build_tree(f, data)
+                move, _k = kernelx.make_move(cfg, rng, td)
+                try:
+                    move(tree)
+                except _Stop as st:
+                    smp = st.sampler
+                    last = smp.constrained_path[-1]
+                    return tuple(dp.idx for dp in smp.data_points), float(last.log_pdf), float(last.log_p_one)
+                raise ChoiceModelError("sampler did not build a conditional SMC pass")
+
+            law = {}
+            used = {}
+            try:
+                for (sigma, lpdf, lp1), prob, _r in explore(once):
+                    law[sigma] = law.get(sigma, 0.0) + prob
+                    used[sigma] = lpdf
+                    part.count("paths")
+            except ChoiceModelError as e:
+                part.inconc("choice model: %s" % e)
+                continue
+            part.count("evaluations")
+            part.see("aux|%s|%s" % (cfg.get("wiring"), gen.key_str(f.key())))
+            for sigma, p in law.items():
+                table.setdefault(sigma, []).append((used[sigma] - math.log(p), gen.key_str(f.key())))
+        worst = 0.0
+        for sigma, lst in table.items():
+            if len(lst) < 2:
+                continue
+            part.count("orders_shared_by_several_trees")
+            vals = [v for v, _ in lst]
+            dev = max(vals) - min(vals)
+            worst = max(worst, dev)
+            if dev > 1e-9:
+                a = min(lst)
+                b = max(lst)
+                part.violation("particle weights use a data-order density that is not proportional, over trees, to the "
+                               "law the data order is actually drawn from (update cannot be invariant)",
+                               {"cfg": cfg, "order": list(sigma), "tree_a": a[1], "tree_b": b[1],
+                                "log_density_minus_log_law": [a[0], b[0]]})
+                break
+        part.maxi("max_aux_density_inconsistency", worst)
+    except Exception as e:
+        et, where, msg = describe_exception(e)
+        if where == "outside-repo":
+            import traceback
+            part.inconc("harness error: " + traceback.format_exc()[-800:])
+        else:
+            part.violation("%s in %s while building the conditional SMC pass" % (et, where), {"cfg": cfg, "msg": msg})
+    finally:
+        ConditionalSMCSampler.sample = orig_sample
+    return None, part
+
+
+def aux_configs(tier, seed):
+    deep_wide = [
+        {"blocks": [[0], [1], [2], [3], [4]], "parent": [1, 2, 4, 4, None], "outliers": []},  # 4 -> (2 -> 1 -> 0, 3)
+        {"blocks": [[0], [1], [2], [3], [4]], "parent": [1, 2, None, None, None], "outliers": []},  # root: chain + 2 tops
+        {"blocks": [[0], [1], [2], [3, 4]], "parent": [1, 3, 3, None], "outliers": []},
+    ]
+    out = []
+    for i, (wiring, op) in enumerate([("library", 0.0), ("run", 0.2)] if tier == "quick" else
+                                     [("library", 0.0), ("run", 0.2), ("run", 0.0), ("library", 0.2)]):
+        for n in ([5] if tier == "quick" else [5, 6]):
+            crafted = deep_wide if n == 5 else []
+            out.append({"cfg": dict(move="pg", n=n, D=1, G=5, proposal=PROPOSALS[(i + seed) % 3], wiring=wiring,
+                                    outlier_prior=op, threshold=0.5, N=2, alpha=1.0, data_seed=seed * 1000 + 300 + i),
+                        "trees": 24 if tier == "quick" else 60, "crafted": crafted})
+    return out
+
+
 def mc_configs(tier, seed):
     if tier == "quick":
         return [(dict(move="pg", n=3, D=1, G=7, proposal=PROPOSALS[seed % 3], wiring=["run", "library"][seed % 2],
@@ -210,8 +340,11 @@ def run(ctx):
     ]
     cfgs = configs(ctx.tier, ctx.seed)
     run_exact(ctx, cfgs)
+    ctx.map("checks.c01", "aux_task", aux_configs(ctx.tier, ctx.seed), timeout=2400)
     for cfg, total in mc_configs(ctx.tier, ctx.seed):
         run_mc(ctx, cfg, total)
     ctx.exhaustive = False
     if ctx.counters.get("paths", 0) < 1000:
         ctx.inconc("fewer than 1000 replayed paths")
+    if ctx.counters.get("orders_shared_by_several_trees", 0) < 10:
+        ctx.inconc("extended-target consistency: too few data orders shared by several trees")
